@@ -138,10 +138,29 @@ def hist_spec(draw, dims=(1, 2, 3), dtypes=ALL_DTYPES, max_bins=6, gapped=None, 
             "meta": draw(meta(d, rich_meta)), "adaptive": adp}
 
 
+CLASSES_BY_DIM = {
+    1: ["Histogram1D", "RadialHistogram", "AzimuthalHistogram"],
+    2: ["Histogram2D", "PolarHistogram", "SphericalSurfaceHistogram", "CylindricalSurfaceHistogram", "HistogramND"],
+    3: ["HistogramND", "SphericalHistogram", "CylindricalHistogram"],
+    4: ["HistogramND"],
+}
+
+
+def resolve_class(name):
+    import physt.special_histograms as sh
+    from physt.histogram1d import Histogram1D
+    from physt.histogram_nd import Histogram2D, HistogramND
+
+    return {"Histogram1D": Histogram1D, "Histogram2D": Histogram2D, "HistogramND": HistogramND}.get(name) or getattr(sh, name)
+
+
 def build(spec):
     """Build the histogram through the public constructors."""
     from physt.histogram1d import Histogram1D
     from physt.histogram_nd import Histogram2D, HistogramND
+
+    if spec.get("class"):
+        return build_class(spec)
 
     d = len(spec["axes"])
     binnings = [build_axis(ax) for ax in spec["axes"]]
@@ -182,3 +201,28 @@ def shape_of(spec):
 
 def is_gapped_spec(spec) -> bool:
     return any(gen.is_gapped(ax["pairs"]) for ax in spec["axes"])
+
+
+def build_class(spec):
+    """Like build(), for an explicitly named (possibly coordinate-transformed) class."""
+    klass = resolve_class(spec["class"])
+    d = len(spec["axes"])
+    binnings = [build_axis(ax) for ax in spec["axes"]]
+    dt = np.dtype(spec["dtype"])
+    freq = np.array(spec["freq"], dtype=dt)
+    kw: Dict[str, Any] = {"dtype": dt, "keep_missed": spec.get("keep_missed", True)}
+    if spec.get("err2") is not None:
+        kw["errors2"] = np.array(spec["err2"], dtype=dt)
+    m = dict(spec.get("meta") or {})
+    if d == 1:
+        if "axis_names" in m:
+            m["axis_name"] = m.pop("axis_names")[0]
+        u, o, i = spec["missed"]
+        return klass(binnings[0], freq, underflow=u, overflow=o, inner_missed=i, **kw, **m)
+    if "axis_names" in m:
+        m["axis_names"] = tuple(m["axis_names"])
+    elif spec["class"] == "CylindricalSurfaceHistogram":
+        m["axis_names"] = ("phi", "z")  # the class default names three axes for two dimensions
+    if spec["class"] == "HistogramND":
+        kw["dimension"] = d
+    return klass(binnings, freq, missed=spec["missed"][0], **kw, **m)
